@@ -128,6 +128,14 @@ def run(ctx):
     if f is not None:
         ps = [(b, t) for b, t in f.calls() if t.j.get("callee_name") == "push"]
         ctx.ob("R1", "and-append", len(ps) == 1, "AndMatcherBuilder::new_and_condition must append (Vec::push) the operand", fn=f, how="call sites")
+        # ... on every path, unconditionally: every operand written on the command line is part of the tree (has_side_effects
+        # and the lifecycle calls range over the tree, so an operand dropped as "unreachable" changes the default -print)
+        unconditional = bool(ps) and all(prim.must_pass(f, 0, [r], [b for b, _ in ps]) for r in f.return_blocks())
+        ctx.ob("R1", "and-append-unconditional", unconditional, "AndMatcherBuilder::new_and_condition must push the operand on every path (a conditional early return drops operands from the expression tree)", fn=f, how="must-pass on the CFG")
+        for b, t in ps:
+            o = prim.origin_of_operand(f, t.args[1])
+            ok = any(x.k == "arg" for x in o.walk()) and [c.a["name"] for c in o.call_nodes()] in (["into_box"], [])
+            ctx.ob("R1", "and-append-operand", ok, "the pushed value is %s; must be the given operand (boxed)" % o.fmt(), fn=f, where=prim.site(f, b), how="provenance slice", nontrivial=False)
     for name, pushed in (("OrMatcherBuilder::new_or_condition", "AndMatcherBuilder::new"), ("ListMatcherBuilder::new_list_condition", "OrMatcherBuilder::new")):
         f = ctx.fn("R1", LM + name)
         if f is None:
@@ -287,7 +295,7 @@ def run(ctx):
                     o0 = prim.origin_of_operand(f, t.args[0]).strip()
                     ctx.ob("R3", "child-args:NotMatcher", o0.k == "field" and o0.a == "submatcher", "NotMatcher evaluates %s" % o0.fmt(), fn=f, where=prim.site(f, b), how="provenance slice")
         if ty == "ListMatcher":
-            rc = f.locals_named("rc")
+            rc = C.find_local(f, "rc", ty="bool", pred=lambda fn_, l_: any(d[1] == "assign" and d[2].rv is not None and d[2].rv.k == "use" and d[2].rv.ops[0].place is not None and d[2].rv.ops[0].place.local == l_ for d in prim.local_defs(fn_).get(0, [])))
             ok = False
             if rc:
                 ds = [d for d in prim.local_defs(f).get(rc[0], []) if d[0] in f.reachable() and d[1] != "partial"]
